@@ -260,6 +260,14 @@ def parse_drop_rule(fx, scope, parsers=("::parse_assignment_expression", "::pars
 def param_sibling_rule(fx, scope, op_path, pattern_adt="ast::Pattern", info_adt="FunctionInfo"):
     """[(fn, kind, ok, span, why)]"""
     out = []
+    # helpers that bind one name (`declare_simple_param(id, reg, ..)`): they emit the DeclareVar (or hand a pattern to the pattern binder)
+    # themselves and are not compilers of statements or expressions
+    binders = set()
+    for p, g in fx.fns.items():
+        if g.derived or g.closure or not scope(g) or any(("ast::Statement" in fx.tys(t) or "ast::Expression" in fx.tys(t)) for t in g.sig[:-1]):
+            continue
+        if op_aggs(g, op_path, "DeclareVar") or any((t[1].get("d") or "").endswith("::compile_pattern_binding") for _, t in g.calls()):
+            binders.add(p)
     for p, f in sorted(fx.fns.items()):
         if f.derived or f.closure or not scope(f):
             continue
@@ -275,6 +283,7 @@ def param_sibling_rule(fx, scope, op_path, pattern_adt="ast::Pattern", info_adt=
             continue
         sw = max(sws, key=lambda x: len(x[3]))
         binds = {bi for bi, sp in op_aggs(f, op_path, "DeclareVar")} | {bi for bi, t in f.calls() if (t[1].get("d") or "").endswith("::compile_pattern_binding")}
+        binds |= {bi for bi, t in f.calls() if t[1].get("d") in binders}
         for var, tgt in sorted(sw[3].items()):
             region = M.dominated_region(f, tgt) if all(q == sw[0] for q in f.preds()[tgt]) else {tgt}
             ok = bool(binds & region)
@@ -310,13 +319,15 @@ def pool_identity_rule(fx, scope, key_ty="value::JsString"):
         found = set()
         for bi, t in gets:
             found.add(t[3][0])
-        ident = [t[4] for bi, t in f.calls() if (t[1].get("d") or "").endswith("::ptr_eq") and t[4] is not None and t[4] >= 0]
+        # "what if the identity test says no": the found slot must then be unreachable (the test may sit in an `&&` chain or be kept in a flag)
+        ident = {bi: 0 for bi, t in f.calls() if (t[1].get("d") or "").endswith("::ptr_eq")}
+        differ = M.reach_bool_sensitive(fx, f, [0], assume=ident)
         # returns of the found value: `_0 = Ok(idx)` with idx derived from the lookup
         rets = [(bi, s) for bi, bl in enumerate(f.blocks) for s in bl["s"]
                 if s[0] == "a" and s[1][0] == 0 and not s[1][1] and s[2][0] == "agg" and s[2][2] and s[2][2][0][0] in ("c", "m")
                 and ancestors(f, s[2][2][0][1][0]) & found]
         for bi, s in rets:
-            out.append((f, any(f.dominates(ib, bi) for ib in ident), s[3]))
+            out.append((f, bool(ident) and bi not in differ, s[3]))
     return out
 
 
